@@ -393,6 +393,12 @@ pub struct FaultPlan {
     pub foreign_reap: bool,
     /// bystander processes get created (pid reuse)
     pub bystanders: bool,
+    /// a signal with a (do-nothing) handler arrives while the parent is blocked inside a library
+    /// call: the n-th (1-based) .. n+count-1-th time a call of a kind in `mask` would block, it
+    /// fails with EINTR instead.  mask: 1 = poll (never restarted), 2 = read/write on a pipe,
+    /// 4 = waitpid (both only for handlers installed without SA_RESTART)
+    #[serde(default)]
+    pub eintr: Option<(u32, u32, u8)>,
 }
 
 #[derive(Clone, Debug, Default)]
@@ -439,6 +445,8 @@ pub struct Kernel {
     /// per parent thread signal mask
     pub par_mask: [u64; 8],
     /// calls on fds 0..2 in parent context (C05)
+    /// would-block events of parent threads inside library calls, per kind mask (EINTR injection)
+    pub n_wouldblock: u32,
     pub std_touched: Vec<String>,
     /// lowest number for files opened by the harness (the caller of the library)
     pub harness_fd_min: i32,
@@ -559,6 +567,7 @@ impl Kernel {
             in_lib: [false; 8],
             probes: BTreeMap::new(),
             par_mask: [0; 8],
+            n_wouldblock: 0,
             std_touched: vec![],
             harness_fd_min: 3,
             ebadf: vec![],
